@@ -357,7 +357,7 @@ def gen_case(rng, idx, w, metric, kind):
                       "corr": float(rng.choice([-1.0, 1.0]))}[what]
             shifts.append((at, what, j, amount))
             at += int(rng.integers(3 * w // 2, 3 * w))
-        if rng.random() < .4:
+        if metric == "i" and rng.random() < .4:      # (histogram metric only: a KDE of a constant projection has bandwidth 0, sklearn refuses it)
             # a feature that is exactly constant over the whole first reference window and comes alive while the test window
             # fills (or later): StandardScaler's zero-variance rule (scale 1) decides what the next reference window holds
             shifts.insert(0, (0, "freeze", int(rng.integers(0, d)), float(w + int(rng.integers(1, 2 * w)))))
